@@ -245,6 +245,22 @@ func (s *decScope) bounded(v ssa.Value, at *ssa.BasicBlock, depth int) (bool, st
 			if callee.Blocks != nil && onlyConstReturns(callee) {
 				return true, "callee returns constants only"
 			}
+			// a clamp moved into a helper: every value the callee returns is
+			// bounded in the callee's own context
+			if callee.Blocks != nil && callee.Signature.Results().Len() == 1 && strings.HasPrefix(pkgPathOf(callee), repoMod) && depth < 4 {
+				all, any := true, false
+				for _, cb := range callee.Blocks {
+					if ret, ok := cb.Instrs[len(cb.Instrs)-1].(*ssa.Return); ok && len(ret.Results) == 1 {
+						any = true
+						if ok, _ := s.bounded(ret.Results[0], cb, depth+2); !ok {
+							all = false
+						}
+					}
+				}
+				if all && any {
+					return true, "every value the callee " + callee.Name() + " returns is bounded (clamp in a helper)"
+				}
+			}
 		}
 		return false, "result of " + calleeName(x)
 	case *ssa.BinOp:
